@@ -594,3 +594,58 @@ def rule_stale_swap_read(ctx: Ctx) -> None:
                     ctx.ok("effect.stale-swap-read", m, body[first], what=f"swap of {field}: later halves built from the saved copy")
     if regions == 0:
         raise AnalysisError("effect.stale-swap-read: no save/overwrite/restore region found in CompilerBase.compile")
+
+
+
+# --------------------------------------------------------------------------- weight.preserve
+
+
+def rule_weight_preserve(ctx: Ctx) -> None:
+    """Photon loss is book-kept as a sub-normalised state (trace / total mixture weight = survival probability).  No unitary,
+    channel or partial-trace step may rescale the state: in the density-matrix representation only a projective measurement
+    divides by a probability, and the mixed-stabilizer gate methods must carry every branch probability through unchanged."""
+    repo = ctx.repo
+    dms = "graphiq/backends/density_matrix/state.py"
+    m = repo.module(dms)
+    ci = repo.cls("DensityMatrix", dms)
+    n = 0
+    for name in ("apply_unitary", "apply_channel", "partial_trace"):
+        fn = ci.methods().get(name)
+        if fn is None:
+            raise AnalysisError(f"DensityMatrix.{name} missing")
+        ctx.touch(m, fn)
+        n += 1
+        bad = [x for x in ast.walk(fn) if (isinstance(x, ast.BinOp) and isinstance(x.op, ast.Div) and "trace" in norm(x.right).lower())
+               or (isinstance(x, ast.AugAssign) and isinstance(x.op, ast.Div) and "trace" in norm(x.value).lower())
+               or (isinstance(x, ast.Call) and call_attr(x) in ("normalize", "normalise", "renormalize"))]
+        if bad:
+            ctx.fail("weight.preserve", m, bad[0],
+                     f"DensityMatrix.{name} divides the state by its trace (`{short(bad[0], 70)}`): a state made sub-normalised by an earlier "
+                     f"PhotonLoss is silently renormalised, so the trace no longer equals the product of photon survival probabilities",
+                     func=f"DensityMatrix.{name}", construct=f"DensityMatrix.{name}: renormalises by the trace")
+        else:
+            ctx.ok("weight.preserve", m, fn, what=f"DensityMatrix.{name} does not rescale the state")
+    ss = "graphiq/backends/stabilizer/state.py"
+    sm = repo.module(ss)
+    ms = repo.cls("MixedStabilizer", ss)
+    for name, fn in ms.methods().items():
+        if not (name.startswith("apply_") or name in ("reset_qubit", "remove_qubit", "trace_out_qubits", "partial_trace")):
+            continue
+        for lc in [x for x in ast.walk(fn) if isinstance(x, ast.ListComp) and isinstance(x.elt, ast.Tuple) and len(x.elt.elts) == 2]:
+            tgt = lc.generators[0].target
+            pname = norm(tgt.elts[0]) if isinstance(tgt, ast.Tuple) else None
+            n += 1
+            if pname is not None and norm(lc.elt.elts[0]) == pname:
+                ctx.ok("weight.preserve", sm, lc, what=f"MixedStabilizer.{name} keeps each branch probability")
+            else:
+                ctx.fail("weight.preserve", sm, lc, f"MixedStabilizer.{name} rebuilds the mixture with probability `{norm(lc.elt.elts[0])}` instead "
+                                                    f"of the branch's own `{pname}`: the total weight changes under a gate", func=f"MixedStabilizer.{name}")
+        for st in [x for x in ast.walk(fn) if isinstance(x, ast.Assign) and isinstance(x.targets[0], ast.Subscript)
+                   and norm(x.targets[0].value) == "self._mixture" and isinstance(x.value, ast.Tuple) and len(x.value.elts) == 2]:
+            n += 1
+            if norm(st.value.elts[0]) == "p_i":
+                ctx.ok("weight.preserve", sm, st, what=f"MixedStabilizer.{name} keeps p_i")
+            else:
+                ctx.fail("weight.preserve", sm, st, f"MixedStabilizer.{name} stores `{norm(st.value.elts[0])}` as the branch probability", func=f"MixedStabilizer.{name}")
+    if n < 10:
+        raise AnalysisError("weight.preserve: too few sites analysed")
